@@ -47,9 +47,9 @@ PLAN = {
     ),
     "C08": dict(
         quick=["lit_finish_exit", "lit_foreign_finish", ("lit_spawn_sweep", dict(cap=800)), "par4", ("over5_d", dict(cap=800)), ("cancel4_c", dict(cap=400)),
-               "extra:churn_late", "extra:churn_mixed", ("stress:tree4", dict(rounds=200, threads=6))],
+               "extra:churn_late", "extra:churn_mixed", "extra:churn_pool_c", ("stress:tree4", dict(rounds=200, threads=6))],
         thorough=["lit_finish_exit", "lit_foreign_finish", "lit_spawn_sweep", "par4", "par5", "over5_d", "cancel4_c", ("sim_par3", dict(cap=6000)),
-                  "extra:churn_late", "extra:churn_mixed"],
+                  "extra:churn_late", "extra:churn_mixed", "extra:churn_pool_c"],
         vacuity=[("lit_finish_exit", ["FixRecv"]), ("over5_d", ["FixFifo"])],
     ),
     "C09": dict(
